@@ -31,6 +31,8 @@ def main():
     ap.add_argument("--props", default="all")
     ap.add_argument("--keep", action="store_true")
     ap.add_argument("--fast", action="store_true", help="other properties' checks at 1200 runs only")
+    ap.add_argument("--own-only", action="store_true",
+                    help="re-run only the check of the property aimed at; other checks' verdicts are kept from meta.json")
     ap.add_argument("--name", default=None)
     ap.add_argument("--wt", default="/tmp/mut-%s")
     a = ap.parse_args()
@@ -62,6 +64,8 @@ def main():
         res["demo_output"] = (r.stdout + r.stderr)[-400:]
         # checks on the changed tree
         props = ALL if a.props == "all" else a.props.split(",")
+        if a.own_only:
+            props = [a.id]
         caught, details = [], {}
         for p in props:
             t0 = time.time()
@@ -106,8 +110,22 @@ def main():
                 "commands": ["git apply patch.diff (scratch worktree of /repo HEAD %s)" % sh("git -C /repo rev-parse --short HEAD").stdout.strip(),
                              "PYTHONPATH=<wt>/src /venv/bin/python -m pytest -q -p no:cacheprovider --timeout=900",
                              "/venv/bin/python demo.py <wt>/src", "VERIF_REPO=<wt> check.py --property <each> --tier quick"]}
+            if a.own_only:
+                old = {}
+                try:
+                    old = json.load(open(os.path.join(dst, "meta.json")))
+                except Exception:
+                    pass
+                others = [p for p in old.get("caught_by_checks", []) if p != a.id]
+                od = {k: v for k, v in (old.get("check_details") or {}).items() if k != a.id}
+                caught = sorted(set(others) | set(caught))
+                od.update(details)
+                details = od
+                meta["other_checks_run_at"] = old.get("other_checks_run_at", "not run")
+                meta["own_check_rerun_with"] = "verif " + sh("git -C %s rev-parse --short HEAD" % VERIF).stdout.strip()
+            else:
+                meta["other_checks_run_at"] = "1200 runs (300 for C04/C10/C19/C20)" if a.fast else "full quick tier"
             meta["caught_by_checks"] = caught
-            meta["other_checks_run_at"] = "1200 runs (300 for C04/C10/C19/C20)" if a.fast else "full quick tier"
             meta["check_details"] = details
             json.dump(meta, open(os.path.join(dst, "meta.json"), "w"), indent=1)
             print("kept as %s" % dst)
